@@ -542,7 +542,7 @@ func (w *World) supersededBatchReleaseWouldResume(it QItem) bool {
 	return short != canaryRevOf(ro) && short != ro.Status.GetSubStatus().StableRevision && br.Status.UpdateRevision == upd
 }
 
-var KnownOpen = map[string]bool{FindingRaiseUpgradedStep: true, FindingBlueGreenSupersession: true, FindingBlueGreenRouteToMissingSvc: true, FindingSupersededResumed: true, FindingRollbackBeforeFirstPod: true, FindingRevertBeforeObserved: true, FindingExitBeforeBatchRelease: true, FindingGatewayDisableCanarySvc: true, FindingPlanEditJumpToSelf: true, FindingReleaseDuringCancel: true, FindingScaleBelowTrafficStep: true}
+var KnownOpen = map[string]bool{FindingRaiseUpgradedStep: true, FindingBlueGreenSupersession: true, FindingSupersededResumed: true, FindingRollbackBeforeFirstPod: true, FindingRevertBeforeObserved: true, FindingExitBeforeBatchRelease: true, FindingGatewayDisableCanarySvc: true, FindingPlanEditJumpToSelf: true, FindingReleaseDuringCancel: true, FindingScaleBelowTrafficStep: true}
 
 // scaleBelowTrafficStep: partition style + provider + an integer step with traffic >= n.
 func (r *Run) scaleBelowTrafficStep(n int) bool {
